@@ -67,6 +67,8 @@ def all_cfgs(maxd=3):
             out.append(_cfg("flag", tx, rx, "two", "plain", "always"))
             out.append(_cfg("flag", tx, rx, "two", "plain", "always", "act_first"))
             out.append(_cfg("flag", tx, rx, "two", "plain", "guarded"))
+            out.append(_cfg("flag", tx, rx, "two", "plain", "guarded", "act_first"))
+            out.append(_cfg("mailbox", tx, rx, "two", "plain", "guarded", "act_first"))
             out.append(_cfg("flag", tx, rx, "two", "coro", "guarded"))
             out.append(_cfg("mailbox", tx, rx, "two", "plain", "guarded"))
             out.append(_cfg("mailbox", tx, rx, "two", "coro", "guarded"))
